@@ -157,7 +157,7 @@ func (C04) Explore(x *kernel.Explorer, seed uint64) {
 	for i := 0; i < 4 && !x.Expired(); i++ {
 		plan := &kernel.Plan{Prop: "C04", Seed: kernel.Mix(seed, uint64(i)), Swarm: map[string]int64{"idlenth": int64([]int{0, 0, 0, 2, 3}[r.Intn(5)]), "pgreexec": int64(r.Intn(2)), "fetch": int64([]int{0, 0, 1, 2}[r.Intn(4)]),
 			"chunk": int64(r.Intn(4)), "colseed": int64(r.Uint32()), "stranger": int64(r.Intn(2)),
-			"mysql": int64(r.Intn(3) / 2), "depeof": int64(r.Intn(2)), "rawmy": int64(r.Intn(2)), "reexec": int64(r.Intn(2)), "longdata": int64(r.Intn(4) / 3), "wyield": int64(r.Intn(2))}}
+			"mysql": int64(r.Intn(3) / 2), "depeof": int64(r.Intn(2)), "rawmy": int64(r.Intn(2)), "reexec": int64(r.Intn(2)), "longdata": int64(r.Intn(4) / 3), "wyield": int64(r.Intn(2)), "ctrl": int64(r.Intn(3) / 2)}}
 		plan.Swarm["ksv2"] = int64(r.Intn(3) / 2)
 		if r.Chance(1, 6) {
 			// one call into the token storage fails with an I/O error
@@ -248,6 +248,10 @@ func (C04) Run(t *testing.T, plan *kernel.Plan, keepLog bool) *kernel.Result {
 			row := &c04Row{id: len(rows) + 1, plain: fmt.Sprintf("plain-%d-%d", len(rows)+1, ver)}
 			for _, c := range cols {
 				v := marker(c, row.id, ver)
+				if plan.Sw("ctrl") == 1 && plan.Sw("mysql") == 0 && !c.numeric() && c.Token == "" && row.id%2 == 1 {
+					// text with a control character: as a Bind parameter it is no escaped bytea value
+					v = v[:6] + "\t" + v[6:] + "\nline2"
+				}
 				row.vals = append(row.vals, v)
 				protectedMarks = append(protectedMarks, []byte(v))
 			}
